@@ -1,6 +1,6 @@
 """CLI-level witness scenarios: run the real stylua binary (built from /repo's working tree into
 /verif/.build/cli-target) in a scratch directory and evaluate a property-level oracle."""
-import os, subprocess, tempfile, shutil, json, hashlib
+import shutil, os, subprocess, tempfile, shutil, json, hashlib
 ROOT = os.path.dirname(os.path.dirname(os.path.abspath(__file__)))
 TARGET = os.path.join(ROOT, ".build", "cli-target")
 BIN = os.path.join(TARGET, "debug", "stylua")
@@ -87,6 +87,18 @@ def scenario(name):
             rc2, ref = fmt_ref(UNFORMATTED, d)
             if rc != 0 or out != ref: return False, "stdin output differs between two runs"
             if not out.startswith(b"local x = 1\n"): return False, f"stdin mode printed {out[:40]!r}"
+            # every input gets its formatted text on stdout, also one that is formatted already (an editor formats on every save)
+            for inp, extra in ((ref, []), (ref, ["--quote-style", "AutoPreferSingle"]), (ref, ["--stdin-filepath", "some/dir/x.lua"]),
+                               (b"-- only a comment\n", []), (b"local s = 'q'\nreturn s\n", ["--quote-style", "ForceSingle"])):
+                # reference: the same text formatted in file mode (written to a file, formatted in place, read back)
+                fextra = [x for x in extra if x != "--stdin-filepath" and not x.endswith("x.lua")]
+                w("_ref/in.lua", inp)
+                rcf, _o, _e = run(fextra + ["_ref/in.lua"], d)
+                want = r("_ref/in.lua")
+                shutil.rmtree(os.path.join(d, "_ref"), ignore_errors=True)
+                if rcf != 0: return False, f"file mode failed on the reference input: exit {rcf}"
+                rc, out, err = run(extra + ["-"], d, stdin=inp)
+                if rc != 0 or out != want: return False, f"stdin mode {' '.join(extra)} on {inp[:30]!r}: exit {rc}, {len(out)} bytes on stdout, the formatted text has {len(want)}"
             for fmt in ("Standard", "Unified", "Json", "Summary"):
                 for extra in ([], ["--check"]):
                     rc, out, err = run(extra + ["--output-format", fmt, "-"], d, stdin=BROKEN)
